@@ -408,6 +408,57 @@ static void trap_bounds_case(uint64_t idx, void *vctx)
     }
 }
 
+/* ---------- trapezoid entry points: a pixel-aligned rectangle given as a trapezoid changes its own pixels and nothing else ----------
+ * (the request of these entry points is the shape; its bounding box here is the shape itself).  Destinations a8 / a4 / a1, plain and behind accessor
+ * callbacks (the rasterisers exist in two instantiations, direct and accessor), spans from one pixel to wider than any internal run optimisation. */
+static uint32_t tb_acc_read(const void *p, int size) { return size == 1 ? *(const uint8_t *)p : size == 2 ? *(const uint16_t *)p : *(const uint32_t *)p; }
+static void tb_acc_write(void *p, uint32_t v, int size) { if (size == 1) *(uint8_t *)p = (uint8_t)v; else if (size == 2) *(uint16_t *)p = (uint16_t)v; else *(uint32_t *)p = v; }
+static void trap_box_case(uint64_t idx, void *vctx)
+{
+    (void)vctx;
+    static const int X1[3] = { 0, 1, 4 }, BW_[8] = { 1, 5, 6, 7, 8, 16, 20, 32 };
+    int dims[7] = { 5, 3, 2, 3, 8, 2, 2 }, d[7]; vf_decode(idx, dims, 7, d);
+    int ep = d[0], fi = d[1], acc = d[2], x1 = X1[d[3]], x2 = x1 + BW_[d[4]], y1 = d[5], y2 = y1 + 1 + d[6];
+    enum { W = 37, H = 4 };
+    pixman_format_code_t fmt = TB_FMT[fi]; int bpp = PIXMAN_FORMAT_BPP(fmt);
+    if (x2 > W) x2 = W;
+    static const char *EPN[5] = { "add_traps", "add_trapezoids", "rasterize_trapezoid", "add_triangles(two halves of the rectangle)", "composite_trapezoids(ADD, opaque solid, mask format = destination format)" };
+    const int stride = 48;                                        /* 37 pixels need 37 / 19 / 5 bytes: the rest of each row is padding that must survive */
+    uint8_t big[H][48] __attribute__((aligned(4))), bigb[H][48];
+    for (int y = 0; y < H; y++) for (int b = 0; b < 48; b++) big[y][b] = bigb[y][b] = bpp == 8 ? (uint8_t)(0x10 + (y * 7 + b * 3) % 0x30) : bpp == 4 ? (uint8_t)(((b + y) % 4) * 0x11) : 0;
+    pixman_image_t *dst = pixman_image_create_bits(fmt, W, H, (uint32_t *)big, stride);
+    if (acc) pixman_image_set_accessors(dst, tb_acc_read, tb_acc_write);
+    pixman_fixed_t fx1 = pixman_int_to_fixed(x1), fx2 = pixman_int_to_fixed(x2), fy1 = pixman_int_to_fixed(y1), fy2 = pixman_int_to_fixed(y2);
+    pixman_trapezoid_t t = { fy1, fy2, { { fx1, fy1 }, { fx1, fy2 } }, { { fx2, fy1 }, { fx2, fy2 } } };
+    switch (ep) {
+    case 0: { pixman_trap_t tr = { { fx1, fx2, fy1 }, { fx1, fx2, fy2 } }; pixman_add_traps(dst, 0, 0, 1, &tr); break; }
+    case 1: pixman_add_trapezoids(dst, 0, 0, 1, &t); break;
+    case 2: pixman_rasterize_trapezoid(dst, &t, 0, 0); break;
+    case 3: { pixman_triangle_t tri[2] = { { { fx1, fy1 }, { fx2, fy1 }, { fx1, fy2 } }, { { fx2, fy1 }, { fx2, fy2 }, { fx1, fy2 } } }; pixman_add_triangles(dst, 0, 0, 2, tri); break; }
+    default: { pixman_color_t c = { 0xffff, 0xffff, 0xffff, 0xffff }; pixman_image_t *solid = pixman_image_create_solid_fill(&c);
+               pixman_composite_trapezoids(PIXMAN_OP_ADD, solid, dst, fmt, 0, 0, 0, 0, 1, &t); pixman_image_unref(solid); break; }
+    }
+    vf_count_libcalls(1);
+    pixman_image_unref(dst);
+    uint64_t changed = 0;
+    for (int y = 0; y < H && !vf_failed(); y++) for (int x = 0; x < 48 * 8 / bpp; x++) {
+        uint32_t was = ph_get_pixel(bigb[y], bpp, x), now = ph_get_pixel(big[y], bpp, x);
+        int inside = x >= x1 && x < x2 && y >= y1 && y < y2 && x < W;
+        if (now != was) changed++;
+        if (!inside && now != was) {
+            vf_violation(x >= W ? "c03-entry-padding-modified" : "c03-entry-wrote-outside-shape", "%s, destination %s %dx%d%s: the rectangle x[%d,%d) y[%d,%d) given as a trapezoid changed pixel (%d,%d) %#x -> %#x, which lies outside it",
+                         EPN[ep], TB_FMTN[fi], W, H, acc ? " behind accessor callbacks" : "", x1, x2, y1, y2, x, y, was, now);
+            break;
+        }
+        if (inside && ep != 3 && now != ((1u << bpp) - 1)) {
+            vf_violation("c03-entry-shape-pixel-not-covered", "%s, destination %s %dx%d%s: the rectangle x[%d,%d) y[%d,%d) given as a trapezoid left pixel (%d,%d) at %#x (was %#x): a fully covered pixel saturates",
+                         EPN[ep], TB_FMTN[fi], W, H, acc ? " behind accessor callbacks" : "", x1, x2, y1, y2, x, y, now, was);
+            break;
+        }
+    }
+    if (!vf_in_confirm) { vf_count_eval(1); vf_count_nontrivial(changed != 0); vf_outcome(vf_mix(vf_hash64(big, sizeof big, (uint64_t)ep), (uint64_t)fi)); }
+}
+
 int main(int argc, char **argv)
 {
     vf_init(argc, argv, "C03", "exploration");
@@ -423,6 +474,7 @@ int main(int argc, char **argv)
     int nso = th ? NSOPT : NSOPT_Q;
     vf_space_run("composite32-and-compute-region", (uint64_t)2 * NDFMT * 7 * NAOPT * nso * (nso + 1) * 3, c3_case, &c);
     vf_space_run("fill-glyph-trapezoid-entry-points", (uint64_t)2 * NDFMT * 7 * 5 * 21, other_case, NULL);
+    vf_space_run("trapezoid-entry-points-pixel-aligned-rectangles", 5 * 3 * 2 * 3 * 8 * 2 * 2, trap_box_case, NULL);
     vf_space_run("trapezoid-entry-points-at-the-edges", (uint64_t)4 * 2 * 3 * 3 * TB_NY * TB_NY * TB_NLX * TB_NRX, trap_bounds_case, NULL);
     vf_bounds = th ? "2 sizes x 6 formats x 7 destination clips x 4 alpha-map options x 15 source options x 16 mask options (mask image a8 / opaque x8r8g8b8 / opaque solid) x 840 rectangles x 2 runs; other entry points: 5 x 21 anchors; trapezoid edges: 4 entry points x 3 alpha formats x 2 sizes x 3 offsets x 105 (top,bottom) x 24 (left,right) x 2 backgrounds"
                    : "2 sizes x 6 formats x 7 destination clips x 4 alpha-map options x 7 source options x 8 mask options (mask image a8 / opaque x8r8g8b8 / opaque solid) x 840 rectangles x 2 runs; other entry points: 5 x 21 anchors";
